@@ -555,8 +555,35 @@ var entries = []entry{
 		}
 		return rz(r, &vq)
 	}},
-	{Name: "rlwe.Parameters", Variants: 6, Make: func(z *zoo, r *eng.Rand, v int) ser {
+	{Name: "rlwe.Parameters", Variants: 9, Make: func(z *zoo, r *eng.Rand, v int) ser {
 		switch v {
+		case 6, 7: // derived objects: the standard counterpart of a conjugate-invariant set (without / with P)
+			src := z.cinv
+			if v == 7 {
+				var err error
+				if src, err = rlwe.NewParametersFromLiteral(rlwe.ParametersLiteral{LogN: 5, LogQ: []int{40}, LogP: []int{41}, RingType: ring.ConjugateInvariant, Xs: ring.Ternary{H: 8}, NTTFlag: true}); err != nil {
+					panic(err)
+				}
+			}
+			p, err := src.StandardParameters()
+			if err != nil {
+				panic(err)
+			}
+			return &p
+		case 8: // rebuilt from the literal of an object that was itself decoded
+			var q rlwe.Parameters
+			b, err := z.params.MarshalBinary()
+			if err == nil {
+				err = q.UnmarshalBinary(b)
+			}
+			if err != nil {
+				panic(err)
+			}
+			p, err := rlwe.NewParametersFromLiteral(q.ParametersLiteral())
+			if err != nil {
+				panic(err)
+			}
+			return &p
 		case 3: // 60-bit primes, conjugate-invariant ring
 			p := z.cinv
 			return &p
